@@ -80,16 +80,26 @@ def run(ck):
     from sa.prenorm import normalise_function
     for q, include_pinned in (("BlockChain.place", True), ("BlockChain.fix_blocks", False)):
         fn = normalise_function(m.func(q))
-        loops = [n for n in walk_body(fn) if isinstance(n, ast.For) and "self.blocks" in norm(n.iter) and IDX in norm(n.iter)]
-        if len(loops) != 2:
-            raise AnalysisError("%s: expected two loops over slices around the pinned index, found %d" % (q, len(loops)))
+        from sa.astutil import Resolver as _Rs
+        _rs = _Rs(fn)
+        # iteration sources over the chain around the pinned index: for statements and comprehension generators alike, temporaries expanded
+        srcs = []
+        for n in ast.walk(fn):
+            its = [n.iter] if isinstance(n, ast.For) else ([g.iter for g in n.generators] if isinstance(n, (ast.ListComp, ast.GeneratorExp, ast.SetComp)) else [])
+            for it in its:
+                e = _rs.expand_node(it)
+                if "self.blocks" in norm(e) and IDX in norm(e):
+                    srcs.append((getattr(it, "lineno", 0), getattr(it, "col_offset", 0), e))
+        srcs = [e for _l, _c, e in sorted(srcs, key=lambda x: (x[0], x[1]))]
+        if len(srcs) != 2:
+            raise AnalysisError("%s: expected two iterations over slices around the pinned index, found %d" % (q, len(srcs)))
         bad = None
         for n in range(1, 7):
             for i in range(0, n):
-                a = _iter_sets(loops[0].iter, n, i)
-                b = _iter_sets(loops[1].iter, n, i)
+                a = _iter_sets(srcs[0], n, i)
+                b = _iter_sets(srcs[1], n, i)
                 if a is None or b is None:
-                    raise AnalysisError("%s: loop iterable not understood: %s / %s" % (q, norm(loops[0].iter), norm(loops[1].iter)))
+                    raise AnalysisError("%s: loop iterable not understood: %s / %s" % (q, norm(srcs[0]), norm(srcs[1])))
                 before = list(range(i - 1, -1, -1))
                 after = list(range(i if include_pinned else i + 1, n))
                 # BlockChain.place only sums sizes over each side: the visiting order is irrelevant there
